@@ -197,6 +197,13 @@ type Interp struct {
 	concrete []uint64
 	trace    []string
 	tracing  bool
+	// decision-tree mode (variable-time predicates over public bytes): comparisons on symbolic values are emitted as IR
+	// instructions, a branch on such a value follows `script` (then `true`) and is recorded
+	forkMode  bool
+	script    []bool
+	decisions []bool
+	condVars  []int
+	segEnds   []int
 }
 
 type frame struct {
@@ -556,6 +563,17 @@ func (in *Interp) binop(op token.Token, x, y Value, t types.Type, xt types.Type)
 			if new(big.Int).And(p1, yc.v).Sign() == 0 {
 				return SymV{em.emit(Op{kind: "low", a: id(x), k: p1.BitLen() - 1})}
 			}
+			// contiguous mask (2^a - 1) << b  (decision-tree mode: keep predicates arithmetic):  ((x >> b) mod 2^a) << b
+			if in.forkMode {
+				b := int(yc.v.TrailingZeroBits())
+				m := new(big.Int).Rsh(yc.v, uint(b))
+				m1 := new(big.Int).Add(m, big.NewInt(1))
+				if new(big.Int).And(m1, m).Sign() == 0 {
+					t := em.emit(Op{kind: "shr", a: id(x), k: b})
+					t = em.emit(Op{kind: "low", a: t, k: m1.BitLen() - 1})
+					return SymV{em.emit(Op{kind: "shl", a: t, k: b})}
+				}
+			}
 		}
 		return SymV{em.emit(Op{kind: "and", a: id(x), b: id(y)})}
 	case token.OR:
@@ -564,6 +582,16 @@ func (in *Interp) binop(op token.Token, x, y Value, t types.Type, xt types.Type)
 		}
 		if xconc && xc.v.Sign() == 0 {
 			return y
+		}
+		if in.forkMode && (xconc || yconc) {
+			// x | c = x + c - (x & c)
+			if xconc {
+				x, y = y, x
+				yc = y.(Conc)
+			}
+			a := in.binop(token.AND, x, y, t, xt)
+			s1 := em.emit(Op{kind: "add", a: id(x), b: id(y)})
+			return SymV{em.emit(Op{kind: "subw", a: s1, b: id(a), k: n + 1})}
 		}
 		return SymV{em.emit(Op{kind: "or", a: id(x), b: id(y)})}
 	case token.XOR:
@@ -575,6 +603,26 @@ func (in *Interp) binop(op token.Token, x, y Value, t types.Type, xt types.Type)
 		}
 		return SymV{em.emit(Op{kind: "xor", a: id(x), b: id(y)})}
 	case token.EQL, token.NEQ, token.LSS, token.LEQ, token.GTR, token.GEQ:
+		if in.forkMode {
+			if signed {
+				fail("signed comparison on a symbolic value (decision-tree mode supports unsigned only)")
+			}
+			not := func(v int) int { return em.emit(Op{kind: "eq", a: v, b: em.constant(big.NewInt(0))}) }
+			switch op {
+			case token.EQL:
+				return SymV{em.emit(Op{kind: "eq", a: id(x), b: id(y)})}
+			case token.NEQ:
+				return SymV{not(em.emit(Op{kind: "eq", a: id(x), b: id(y)}))}
+			case token.LSS:
+				return SymV{em.emit(Op{kind: "lt", a: id(x), b: id(y)})}
+			case token.GTR:
+				return SymV{em.emit(Op{kind: "lt", a: id(y), b: id(x)})}
+			case token.LEQ:
+				return SymV{not(em.emit(Op{kind: "lt", a: id(y), b: id(x)}))}
+			case token.GEQ:
+				return SymV{not(em.emit(Op{kind: "lt", a: id(x), b: id(y)}))}
+			}
+		}
 		if in.declassNow {
 			// a documented declassification point: the comparison result is public by design; explore it with the scripted value
 			in.declassUsed++
@@ -768,6 +816,33 @@ func (in *Interp) call(fn *ssa.Function, args []Value, free []Value) Value {
 			fail("crypto.Hash(%d).New: only SHA-256 / SHA-512 are modelled", id.v.Int64())
 		}
 		return IfaceV{v: &HashObj{kind: kind}}
+	case "bytes.Equal":
+		a, ok1 := args[0].(SliceV)
+		b, ok2 := args[1].(SliceV)
+		if !ok1 || !ok2 {
+			fail("bytes.Equal on %T, %T", args[0], args[1])
+		}
+		if len(a.cells) != len(b.cells) {
+			return Conc{big.NewInt(0)}
+		}
+		var acc Value = Conc{big.NewInt(1)}
+		for i := range a.cells {
+			e := in.binop(token.EQL, a.cells[i].load(), b.cells[i].load(), types.Typ[types.Bool], types.Typ[types.Uint8])
+			if c, ok := e.(Conc); ok {
+				if c.v.Sign() == 0 {
+					return Conc{big.NewInt(0)}
+				}
+				continue
+			}
+			if c, ok := acc.(Conc); ok && c.v.Sign() != 0 {
+				acc = e
+				continue
+			}
+			ia, _ := in.symOrConst(acc)
+			ie, _ := in.symOrConst(e)
+			acc = SymV{in.em.emit(Op{kind: "and", a: ia, b: ie})}
+		}
+		return acc
 	case "crypto/sha512.Sum512", "crypto/sha256.Sum256":
 		h := &HashObj{kind: map[string]string{"crypto/sha512.Sum512": "sha512", "crypto/sha256.Sum256": "sha256"}[fn.String()]}
 		in.hashMethod(h, "Write", args)
@@ -935,6 +1010,10 @@ func (in *Interp) call(fn *ssa.Function, args []Value, free []Value) Value {
 							f.locals[x] = v
 							continue
 						}
+						if sv, isSym := v.(SymV); isSym && in.forkMode {
+							f.locals[x] = SymV{in.em.emit(Op{kind: "eq", a: sv.id, b: in.em.constant(big.NewInt(0))})}
+							continue
+						}
 						fail("boolean not of symbolic value")
 					}
 					f.locals[x] = Conc{new(big.Int).Xor(c.v, big.NewInt(1))}
@@ -1041,6 +1120,24 @@ func (in *Interp) call(fn *ssa.Function, args []Value, free []Value) Value {
 			case *ssa.Jump:
 				next = b.Succs[0]
 			case *ssa.If:
+				if sv, isSym := in.get(f, x.Cond).(SymV); isSym && in.forkMode {
+					d := true
+					if len(in.decisions) < len(in.script) {
+						d = in.script[len(in.decisions)]
+					}
+					in.decisions = append(in.decisions, d)
+					in.condVars = append(in.condVars, sv.id)
+					in.segEnds = append(in.segEnds, len(in.em.ops))
+					if len(in.decisions) > 4096 {
+						fail("decision tree deeper than 4096")
+					}
+					if d {
+						next = b.Succs[0]
+					} else {
+						next = b.Succs[1]
+					}
+					continue
+				}
 				c, ok := in.get(f, x.Cond).(Conc)
 				if !ok {
 					if _, u := in.get(f, x.Cond).(Unknown); u {
@@ -1379,6 +1476,8 @@ type Target struct {
 	// constant-time mode (-ct): "ct" = must translate (no input-dependent branch / index / shift / length),
 	// "leak" = negative control: a variable-time routine that must be REJECTED (sanity check of the detector)
 	Expect  string   `json:"expect"`
+	script  []bool   // decision-tree mode: decisions to follow on this run
+	Fork    bool     `json:"fork"`    // decision-tree mode: explore both outcomes of every branch on a symbolic value
 	Tier    string   `json:"tier"`    // "thorough": skipped unless -tier thorough
 	Declass []string `json:"declass"` // functions (ssa names) in which comparisons on symbolic values are documented declassifications
 }
@@ -1393,6 +1492,21 @@ type Result struct {
 	Err     string
 	Wrap    string // Go source of the T0 wrapper closure body
 	NOps    int
+	// decision-tree mode
+	Decisions []bool
+	CondVars  []int
+	SegEnds   []int
+	Tree      *DNode
+}
+
+// DNode is a node of the decision tree of a variable-time predicate: run Ops, then branch on value Cond (non-zero =
+// then-branch), or stop with outputs Outs.
+type DNode struct {
+	Ops  []Op
+	Cond int
+	T, E *DNode
+	Outs []int
+	Leaf bool
 }
 
 func findFunc(pkg *ssa.Package, name string) *ssa.Function {
@@ -1451,7 +1565,7 @@ func translate1(prog *ssa.Program, pkg *ssa.Package, globals map[*ssa.Global]*Ce
 		fail("function %s not found in %s", t.Fn, t.Pkg)
 	}
 	em := &Emitter{consts: map[string]int{}, countOnly: ctCountOnly}
-	in := &Interp{prog: prog, em: em, globals: globals, declass: map[string]bool{}, declassVal: declassVal, initComplete: func() bool { v, _ := initCompleteByProg.Load(prog); b, _ := v.(bool); return b }()}
+	in := &Interp{prog: prog, em: em, globals: globals, forkMode: t.Fork, script: t.script, declass: map[string]bool{}, declassVal: declassVal, initComplete: func() bool { v, _ := initCompleteByProg.Load(prog); b, _ := v.(bool); return b }()}
 	for _, d := range t.Declass {
 		in.declass[d] = true
 	}
@@ -1605,7 +1719,7 @@ func translate1(prog *ssa.Program, pkg *ssa.Package, globals map[*ssa.Global]*Ce
 					}
 				}
 			case *types.Basic:
-				if u.Info()&types.IsInteger != 0 {
+				if u.Info()&(types.IsInteger|types.IsBoolean) != 0 {
 					outVals = append(outVals, v)
 					outTypes = append(outTypes, ty)
 				}
@@ -1626,8 +1740,188 @@ func translate1(prog *ssa.Program, pkg *ssa.Package, globals map[*ssa.Global]*Ce
 		res.OutBits = append(res.OutBits, n)
 	}
 	res.Ops = em.ops
+	res.NOps = len(em.ops) + em.count
 	res.Nin = em.nin
+	res.Decisions, res.CondVars, res.SegEnds = in.decisions, in.condVars, in.segEnds
 	return
+}
+
+// translateFork explores every path of a target in decision-tree mode (one deterministic re-execution per tree node).
+func translateFork(prog *ssa.Program, pkg *ssa.Package, globals map[*ssa.Global]*Cell, t Target) Result {
+	nodes := 0
+	var first Result
+	var build func(prefix []bool) (*DNode, string)
+	build = func(prefix []bool) (*DNode, string) {
+		nodes++
+		if nodes > 5000 {
+			return nil, "decision tree has more than 5000 nodes"
+		}
+		tt := t
+		tt.script = prefix
+		r := translate1(prog, pkg, globals, tt, false)
+		if r.Err != "" {
+			return nil, r.Err
+		}
+		if nodes == 1 {
+			first = r
+		}
+		d := len(prefix)
+		start := 0
+		if d > 0 {
+			start = r.SegEnds[d-1]
+		}
+		if len(r.Decisions) == d {
+			return &DNode{Ops: r.Ops[start:], Outs: r.Outs, Leaf: true}, ""
+		}
+		n := &DNode{Ops: r.Ops[start:r.SegEnds[d]], Cond: r.CondVars[d]}
+		var e string
+		if n.T, e = build(append(append([]bool{}, prefix...), true)); e != "" {
+			return nil, e
+		}
+		if n.E, e = build(append(append([]bool{}, prefix...), false)); e != "" {
+			return nil, e
+		}
+		return n, ""
+	}
+	root, err := build(nil)
+	res := first
+	res.T = t
+	res.Ops = nil
+	if err != "" {
+		res.Err = err
+		return res
+	}
+	res.Tree = root
+	return res
+}
+
+func treeLean(n *DNode, ind string) string {
+	var sb strings.Builder
+	ops := make([]string, len(n.Ops))
+	for i, o := range n.Ops {
+		ops[i] = opLean(o)
+	}
+	if n.Leaf {
+		fmt.Fprintf(&sb, "%s(.leaf [%s] %s)", ind, strings.Join(ops, ", "), intList(n.Outs))
+		return sb.String()
+	}
+	fmt.Fprintf(&sb, "%s(.node [%s] %d\n%s\n%s)", ind, strings.Join(ops, ", "), n.Cond, treeLean(n.T, ind+" "), treeLean(n.E, ind+" "))
+	return sb.String()
+}
+
+func treeTxt(n *DNode) string {
+	ops := make([]string, len(n.Ops))
+	for i, o := range n.Ops {
+		ops[i] = opTxt(o)
+	}
+	if n.Leaf {
+		return fmt.Sprintf("( L %s | %s )", strings.Join(ops, " ; "), strings.Trim(strings.ReplaceAll(intList(n.Outs), " ", ""), "[]"))
+	}
+	return fmt.Sprintf("( N %s | %d %s %s )", strings.Join(ops, " ; "), n.Cond, treeTxt(n.T), treeTxt(n.E))
+}
+
+// treeShallow renders the decision tree as an ordinary Lean function (shallow embedding) made of nested `if`s whose
+// conditions are arithmetic propositions over the inputs, every intermediate value inlined.  This is the form the
+// canonicity theorems are proved about (one lemma application per `if`, then omega per path).
+func treeShallow(name string, nin int, root *DNode) string {
+	var sb strings.Builder
+	args := make([]string, nin)
+	for i := range args {
+		args[i] = fmt.Sprintf("x%d", i)
+	}
+	fmt.Fprintf(&sb, "def %s_sh (%s : Nat) : List Nat :=\n", name, strings.Join(args, " "))
+	type ex struct {
+		s    string
+		cond bool
+		c0   bool // the constant 0
+	}
+	var rec func(n *DNode, next int, env map[int]ex, ind string)
+	rec = func(n *DNode, next int, env0 map[int]ex, ind string) {
+		env := map[int]ex{}
+		for k, v := range env0 {
+			env[k] = v
+		}
+		nat := func(id int) string {
+			if id < nin {
+				return fmt.Sprintf("x%d", id)
+			}
+			e := env[id]
+			if e.cond {
+				return "(if " + e.s + " then 1 else 0)"
+			}
+			return e.s
+		}
+		for _, o := range n.Ops {
+			id := next
+			next++
+			switch o.kind {
+			case "const":
+				env[id] = ex{s: o.n.String(), c0: o.n.Sign() == 0}
+			case "add":
+				env[id] = ex{s: fmt.Sprintf("(%s + %s)", nat(o.a), nat(o.b))}
+			case "mul":
+				env[id] = ex{s: fmt.Sprintf("(%s * %s)", nat(o.a), nat(o.b))}
+			case "subw":
+				env[id] = ex{s: fmt.Sprintf("((%s + 2^%d - %s %% 2^%d) %% 2^%d)", nat(o.a), o.k, nat(o.b), o.k, o.k)}
+			case "shr":
+				env[id] = ex{s: fmt.Sprintf("(%s / 2^%d)", nat(o.a), o.k)}
+			case "shl":
+				env[id] = ex{s: fmt.Sprintf("(%s * 2^%d)", nat(o.a), o.k)}
+			case "low", "wrap":
+				env[id] = ex{s: fmt.Sprintf("(%s %% 2^%d)", nat(o.a), o.k)}
+			case "lt":
+				env[id] = ex{s: fmt.Sprintf("(%s < %s)", nat(o.a), nat(o.b)), cond: true}
+			case "eq":
+				if env[o.a].cond && env[o.b].c0 {
+					env[id] = ex{s: "(¬" + env[o.a].s + ")", cond: true}
+				} else {
+					env[id] = ex{s: fmt.Sprintf("(%s = %s)", nat(o.a), nat(o.b)), cond: true}
+				}
+			case "and":
+				if env[o.a].cond && env[o.b].cond {
+					env[id] = ex{s: "(" + env[o.a].s + " ∧ " + env[o.b].s + ")", cond: true}
+				} else {
+					env[id] = ex{s: fmt.Sprintf("(%s &&& %s)", nat(o.a), nat(o.b))}
+				}
+			case "or":
+				env[id] = ex{s: fmt.Sprintf("(%s ||| %s)", nat(o.a), nat(o.b))}
+			case "xor":
+				env[id] = ex{s: fmt.Sprintf("(%s ^^^ %s)", nat(o.a), nat(o.b))}
+			default:
+				panic("shallow: " + o.kind)
+			}
+		}
+		if n.Leaf {
+			outs := make([]string, len(n.Outs))
+			for i, o := range n.Outs {
+				outs[i] = nat(o)
+			}
+			fmt.Fprintf(&sb, "%s[%s]\n", ind, strings.Join(outs, ", "))
+			return
+		}
+		c := env[n.Cond].s
+		if !env[n.Cond].cond {
+			c = nat(n.Cond) + " ≠ 0"
+		}
+		fmt.Fprintf(&sb, "%sif %s then\n", ind, c)
+		rec(n.T, next, env, ind+"  ")
+		fmt.Fprintf(&sb, "%selse\n", ind)
+		rec(n.E, next, env, ind+"  ")
+	}
+	rec(root, nin, map[int]ex{}, "  ")
+	return sb.String()
+}
+
+func treeStats(n *DNode) (leaves, depth int) {
+	if n.Leaf {
+		return 1, 0
+	}
+	l1, d1 := treeStats(n.T)
+	l2, d2 := treeStats(n.E)
+	if d2 > d1 {
+		d1 = d2
+	}
+	return l1 + l2, d1 + 1
 }
 
 // genWrap renders a Go closure that calls the real function on a flat vector of input integers and returns the flat
@@ -1736,6 +2030,8 @@ func opLean(o Op) string {
 		return fmt.Sprintf(".subw %d %d %d", o.a, o.b, o.k)
 	case "shr", "shl", "low", "wrap":
 		return fmt.Sprintf(".%s %d %d", o.kind, o.a, o.k)
+	case "lt", "eq":
+		return fmt.Sprintf(".%s %d %d", o.kind, o.a, o.b)
 	case "opaque":
 		panic("opaque values (hash outputs) are only allowed in constant-time mode")
 	}
@@ -1879,7 +2175,12 @@ func main() {
 			return
 		}
 		for _, t := range byKey[k] {
-			r := translate(prog, spkg, globals, t)
+			var r Result
+			if t.Fork {
+				r = translateFork(prog, spkg, globals, t)
+			} else {
+				r = translate(prog, spkg, globals, t)
+			}
 			if r.Err != "" && initErr != "" {
 				r.Err += " (package init: " + initErr + ")"
 			}
@@ -1953,12 +2254,28 @@ func main() {
 	for _, g := range gnames {
 		for _, r := range groups[g] {
 			var sb strings.Builder
-			fmt.Fprintf(&sb, "/- GENERATED by go2ir from %s (%s, tags %q) — do not edit, never committed -/\nimport Voi.IR.Basic\nnamespace Voi.Gen.%s\nopen Voi.IR\n\n", r.T.Pkg, r.T.Fn, r.T.Tags, g)
+			fmt.Fprintf(&sb, "/- GENERATED by go2ir from %s (%s, tags %q) — do not edit, never committed -/\nimport Voi.IR.Tree\nnamespace Voi.Gen.%s\nopen Voi.IR\n\n", r.T.Pkg, r.T.Fn, r.T.Tags, g)
 			if r.Err != "" {
 				fmt.Fprintf(&sb, "def %s_untranslatable : String := %q\n", r.T.Name, r.Err)
 				fmt.Fprintf(os.Stderr, "go2ir: %s.%s: UNTRANSLATABLE: %s\n", g, r.T.Name, r.Err)
 				exit = 1
 			} else {
+				if r.Tree != nil {
+					lv, dp := treeStats(r.Tree)
+					fmt.Fprintf(&sb, "-- decision tree: %d leaves, depth %d\n", lv, dp)
+					fmt.Fprintf(&sb, "def %s_nin : Nat := %d\ndef %s_inBits : List Nat := %s\n", r.T.Name, r.Nin, r.T.Name, intList(r.InBits))
+					fmt.Fprintf(&sb, "set_option maxRecDepth 1000000 in\ndef %s_tree : DTree :=\n%s\n\n", r.T.Name, treeLean(r.Tree, " "))
+					sb.WriteString("/-- the same tree as an ordinary Lean function (shallow embedding) -/\n")
+					sb.WriteString(treeShallow(r.T.Name, r.Nin, r.Tree))
+					fmt.Fprintf(&txtb, "tree %s.%s %d %s %s\n", g, r.T.Name, r.Nin, strings.Trim(strings.ReplaceAll(intList(r.InBits), " ", ""), "[]"), treeTxt(r.Tree))
+					fmt.Fprintf(&sb, "\nend Voi.Gen.%s\n", g)
+					if *leanDir != "" {
+						if err := os.WriteFile(filepath.Join(*leanDir, "IR_"+g+"_"+r.T.Name+".lean"), []byte(sb.String()), 0o644); err != nil {
+							panic(err)
+						}
+					}
+					continue
+				}
 				fmt.Fprintf(&sb, "def %s_nin : Nat := %d\n", r.T.Name, r.Nin)
 				fmt.Fprintf(&sb, "def %s_inBits : List Nat := %s\n", r.T.Name, intList(r.InBits))
 				fmt.Fprintf(&sb, "def %s_outs : List Nat := %s\n", r.T.Name, intList(r.Outs))
@@ -1998,18 +2315,28 @@ func main() {
 			if strings.Contains(rs[0].T.Tags, "force32bit") {
 				cons = "verif && force32bit"
 			}
-			pkgName := filepath.Base(rs[0].T.Pkg)
-			fmt.Fprintf(&sb, "// Code generated by go2ir; DO NOT EDIT.\n\n//go:build %s\n\npackage %s\n\nfunc init() {\n", cons, pkgName)
+			byPkg := map[string][]Result{}
+			var pkgOrder []string
 			for _, r := range rs {
-				if r.Err == "" {
-					sb.WriteString(r.Wrap)
+				if _, ok := byPkg[r.T.Pkg]; !ok {
+					pkgOrder = append(pkgOrder, r.T.Pkg)
 				}
+				byPkg[r.T.Pkg] = append(byPkg[r.T.Pkg], r)
 			}
-			sb.WriteString("}\n")
-			dir := filepath.Join(*gowrap, rs[0].T.Pkg)
-			os.MkdirAll(dir, 0o755)
-			if err := os.WriteFile(filepath.Join(dir, "verif_t0_"+strings.ToLower(g)+".go"), []byte(sb.String()), 0o644); err != nil {
-				panic(err)
+			for _, pk := range pkgOrder {
+				sb.Reset()
+				fmt.Fprintf(&sb, "// Code generated by go2ir; DO NOT EDIT.\n\n//go:build %s\n\npackage %s\n\nfunc init() {\n", cons, filepath.Base(pk))
+				for _, r := range byPkg[pk] {
+					if r.Err == "" {
+						sb.WriteString(r.Wrap)
+					}
+				}
+				sb.WriteString("}\n")
+				dir := filepath.Join(*gowrap, pk)
+				os.MkdirAll(dir, 0o755)
+				if err := os.WriteFile(filepath.Join(dir, "verif_t0_"+strings.ToLower(g)+".go"), []byte(sb.String()), 0o644); err != nil {
+					panic(err)
+				}
 			}
 		}
 	}
